@@ -18,10 +18,16 @@ PROPERTY_ID = "C04"
 LEVEL = "exploration"
 RULE = (
     "Sequence level: a DNA parent (6-40 nt, old/new implementation, annotation offset 0 or >0), 1-4 features (1-3 sorted spans, "
-    "possibly abutting or touching the ends, either strand) stored in absolute coordinates, a history of unit-step slices / rc / "
-    "copy / deepcopy, then queries get_features(biotype, name, start, stop, allow_partial) with windows from the lattice of span "
-    "boundaries +-1. Alignment level: 2-4 gapped rows of the annotatable class with row features and alignment features, "
-    "alignment slices / rc, aln.get_features, get_projected_feature, aln[feature]. Expected membership uses the feature envelope; "
+    "possibly abutting or touching the ends, either strand) stored in absolute coordinates - through add_feature, or written as "
+    "GFF3 text and loaded with Sequence.annotate_from_gff(path, offset=) or load_annotations(path=, seqids=) - optionally next to "
+    "features of another seqid in the same db, a history of unit-step slices / rc / copy / deepcopy / degap, then queries "
+    "get_features(biotype, name, start, stop, allow_partial) with windows from the lattice of span "
+    "boundaries +-1. Alignment level: 2-4 gapped rows of the annotatable class with row features (add_feature or "
+    "Alignment.annotate_from_gff) and alignment features, alignment slices / rc; aln.get_features unfiltered and filtered by "
+    "seqid / biotype / name / on_alignment with allow_partial True and False (exact name sets); the features of view.get_seq(name) "
+    "and of view.degap().get_seq(name) (and of the degapped collection itself for the whole alignment) with allow_partial True "
+    "and False; get_projected_feature, get_projected_features(seqid=, on_alignment=False, allow_partial=True), aln[feature]. "
+    "Expected membership uses the feature envelope; "
     "expected residues come from the index model. Non-trivial = a multi-span or minus-strand feature only partly inside a view "
     "whose history contains an rc; distinct = distinct case encodings."
 )
@@ -30,6 +36,11 @@ ASSUMPTIONS = [
     "views with a negative stride other than -1 are excluded (annotations are documented as dropped for them); views with a positive stride keep their annotations and are checked over whole-view queries: a feature with residues retained by the view must be returned with exactly those residues, one without may be returned with an empty slice",
     "a feature matches a query window by its envelope [min start, max stop): overlap when allow_partial, containment otherwise (documented db behaviour); a returned feature whose spans all miss the view must slice to the empty string",
     "query windows are non-empty and lie inside the view",
+    "degap is applied to sequences that hold no gap characters (the DNA parents; Aligned.data as used by Alignment.degap): nothing is removed, so the result must denote the same residues of the parent as the view it was made from (tests/test_core/test_features.py pins that degap preserves annotations); degapping a sequence that does contain gaps shifts coordinates and is outside the domain",
+    "GFF3 text: one line per span (1-based inclusive), the spans of a feature share its ID and are documented to be merged into one feature, so IDs are kept distinct within a case; a record of a seqid that is not loaded, and db records of another seqid, must never be returned",
+    "Alignment.get_features: on_alignment=False gives row features only, True alignment features only (seqid is ignored: 'ignores sequences'), None both; whether a seqid filter with on_alignment=None also excludes alignment features is undocumented, so alignment features are ignored in that comparison. A row feature matches when its envelope overlaps (allow_partial) or lies inside the part of its sequence retained by the view; rows with no residues in the view contribute nothing (documented in _get_seq_features). Alignment features are returned irrespective of position (exactness asserted on unsliced alignments only; sliced ones fall under the known finding)",
+    "row sequences with no residues in the view are not queried (zero-width window); SequenceCollection.get_features takes no window, so the degapped collection is queried as a whole only when the alignment was not sliced or reversed",
+    "get_projected_features is called with on_alignment=False (with the default it re-projects every alignment feature once per row); a source feature matched by its envelope but with no residues in the view gives the circumstance tag [source-feature-without-residues-in-view]",
 ]
 
 COMP = {"A": "T", "C": "G", "G": "C", "T": "A"}
@@ -67,12 +78,17 @@ def seq_cases(draw):
     offset = draw(st.sampled_from([0, 0, 3, 11]))
     nf = draw(st.integers(1, 4))
     feats = [draw(feature_st(L, offset, i)) for i in range(nf)]
+    load = draw(st.sampled_from(["api", "api", "gff-annotate", "gff-load"]))
+    if load != "api":
+        # GFF records sharing an ID are documented to be merged into one feature: IDs are kept distinct
+        for i, f in enumerate(feats):
+            f["name"] = f"f{i}"
     # history over the model view
     lo, hi, rev = 0, L, False
     hist = []
     for _ in range(draw(st.integers(0, 5))):
         n = hi - lo
-        kind = draw(st.sampled_from(["slice", "slice", "slice", "rc", "rc", "copy", "deepcopy"]))
+        kind = draw(st.sampled_from(["slice", "slice", "slice", "rc", "rc", "copy", "deepcopy", "degap", "degap"]))
         if kind == "slice":
             if n < 2:
                 continue
@@ -126,7 +142,9 @@ def seq_cases(draw):
             j = draw(st.integers(i + 1, len(lattice) - 1))
             q["start"], q["stop"] = lattice[i], lattice[j]
         queries.append(q)
-    return {"impl": impl, "parent": parent, "offset": offset, "features": feats, "history": hist, "queries": queries}
+    # the annotation db may also hold features of other sequences (it is keyed by seqid); they must never be returned
+    decoy = draw(st.booleans())
+    return {"impl": impl, "parent": parent, "offset": offset, "load": load, "decoy": decoy, "features": feats, "history": hist, "queries": queries}
 
 
 @st.composite
@@ -170,7 +188,7 @@ def exec_strided(case) -> Soft:
     pre = f"strided/{impl}/"
     parent, offset = case["parent"], case["offset"]
     qcase = dict(case, queries=[])
-    ok, seq = s.call(pre + "construct", build_seq, qcase)
+    ok, seq = s.call(pre + construct_sig(qcase), build_seq, qcase)
     if not ok:
         return s
     V = list(range(len(parent)))
@@ -231,12 +249,56 @@ def exec_strided(case) -> Soft:
 
 
 # ---------------------------------------------------------------- execute
+def gff_text(records):
+    """GFF3 text for (seqid, feature) records: one line per span (1-based, inclusive); the spans of a feature share its ID"""
+    lines = ["##gff-version 3"]
+    for seqid, f in records:
+        for a, b in f["spans"]:
+            lines.append("\t".join([seqid, "verif", f["biotype"], str(a + 1), str(b), ".", f["strand"], ".", f"ID={f['name']}"]))
+    # a record of a sequence that is not loaded: must never be returned
+    lines.append("\t".join(["zz-not-loaded", "verif", "gene", "1", "3", ".", "+", ".", "ID=decoy"]))
+    return "\n".join(lines) + "\n"
+
+
+def with_gff_file(text, fn):
+    """calls fn(path) with the text written to a temporary .gff file"""
+    import os
+    import tempfile
+
+    with tempfile.TemporaryDirectory(prefix="c04gff") as d:
+        path = os.path.join(d, "features.gff")
+        with open(path, "w") as out:
+            out.write(text)
+        return fn(path)
+
+
 def build_seq(case):
-    from cogent3 import make_seq
+    seq = _build_seq(case)
+    if case.get("decoy"):
+        L = len(case["parent"])
+        for biotype in ("gene", "exon", "cds"):
+            seq.annotation_db.add_feature(seqid="other-seq", biotype=biotype, name="shared", spans=[(case["offset"], case["offset"] + L)], strand="+")
+    return seq
+
+
+def _build_seq(case):
+    from cogent3 import load_annotations, make_seq
 
     new = case["impl"] == "new"
-    seq = make_seq(case["parent"], name="s1", moltype="dna", new_type=new, annotation_offset=case["offset"])
-    if case["offset"] == 0:
+    load = case.get("load", "api")
+    offset = case["offset"]
+    if load == "gff-annotate":
+        # Sequence.annotate_from_gff(path, offset=): "the offset between annotation coordinates and sequence coordinates"
+        seq = make_seq(case["parent"], name="s1", moltype="dna", new_type=new)
+        text = gff_text([("s1", f) for f in case["features"]])
+        with_gff_file(text, lambda path: seq.annotate_from_gff(path, offset=offset) if offset else seq.annotate_from_gff(path))
+        return seq
+    seq = make_seq(case["parent"], name="s1", moltype="dna", new_type=new, annotation_offset=offset)
+    if load == "gff-load":
+        text = gff_text([("s1", f) for f in case["features"]])
+        seq.annotation_db = with_gff_file(text, lambda path: load_annotations(path=path, seqids="s1"))
+        return seq
+    if offset == 0:
         for f in case["features"]:
             seq.add_feature(biotype=f["biotype"], name=f["name"], spans=[tuple(x) for x in f["spans"]], strand=f["strand"])
     else:
@@ -244,6 +306,12 @@ def build_seq(case):
         for f in case["features"]:
             db.add_feature(seqid="s1", biotype=f["biotype"], name=f["name"], spans=[tuple(x) for x in f["spans"]], strand=f["strand"])
     return seq
+
+
+def construct_sig(case):
+    if case.get("load", "api") == "gff-annotate" and case["offset"]:
+        return "construct[annotate_from_gff-with-offset]"
+    return "construct"
 
 
 def expected_slice(parent, offset, f, lo, hi):
@@ -263,11 +331,14 @@ def exec_seq(case) -> Soft:
     pre = f"seq/{impl}/"
     parent, offset = case["parent"], case["offset"]
     L = len(parent)
-    ok, seq = s.call(pre + "construct", build_seq, case)
+    ok, seq = s.call(pre + construct_sig(case), build_seq, case)
     if not ok:
         return s
+    s.cls("load:" + case.get("load", "api"))
     lo, hi, rev = 0, L, False
     has_rc = False
+    # circumstance: the history contains a degap, of a view that is not the whole forward parent at offset 0 / of the whole parent
+    dg = ""
     view = seq
     for op in case["history"]:
         kind = op[0]
@@ -284,6 +355,14 @@ def exec_seq(case) -> Soft:
             has_rc = True
         elif kind == "copy":
             ok, view2 = s.call(pre + "copy", view.copy)
+        elif kind == "degap":
+            # the parent holds no gaps: degapping removes nothing, the model view is unchanged
+            ok, view2 = s.call(pre + "degap", view.degap)
+            if lo or rev or offset:
+                dg = "[degap-of-view]"
+            elif not dg:
+                dg = "[after-degap]"
+            s.cls("degap")
         else:
             ok, view2 = s.call(pre + "deepcopy", lambda: _copy.deepcopy(view))
         if not ok:
@@ -329,7 +408,7 @@ def exec_seq(case) -> Soft:
                     nontriv = True
             if inside == 0:
                 s.cls("feature-outside-view")
-        sig = pre + ("get_features[partial]" if q["allow_partial"] else "get_features")
+        sig = pre + ("get_features[partial]" if q["allow_partial"] else "get_features") + dg
         ok, feats = s.call(sig, lambda: list(view.get_features(allow_partial=q["allow_partial"], **kw)))
         if not ok:
             continue
@@ -399,7 +478,22 @@ def aln_cases(draw):
             hist.append(["rc"])
             rev = not rev
     target = draw(st.sampled_from(list(rows)))
-    return {"rows": rows, "features": feats, "history": hist, "project_to": target, "allow_partial": draw(st.booleans())}
+    # filtered alignment-level queries; the two unfiltered ones are always asked
+    queries = [{"allow_partial": True}, {"allow_partial": False}]
+    for _ in range(draw(st.integers(1, 4))):
+        q = {"allow_partial": draw(st.booleans())}
+        oa = draw(st.sampled_from(["any", "rows", "alignment"]))
+        if oa != "any":
+            q["on_alignment"] = oa == "alignment"
+        if draw(st.booleans()):
+            q["seqid"] = draw(st.sampled_from(list(rows)))
+        if draw(st.integers(0, 2)) == 0:
+            q["biotype"] = draw(st.sampled_from(["gene", "exon"]))
+        if draw(st.integers(0, 3)) == 0:
+            q["name"] = draw(st.sampled_from([f["name"] for f in feats]))
+        queries.append(q)
+    load = draw(st.sampled_from(["api", "api", "gff"]))
+    return {"rows": rows, "features": feats, "load": load, "history": hist, "project_to": target, "allow_partial": draw(st.booleans()), "queries": queries}
 
 
 def exec_aln(case) -> Soft:
@@ -411,10 +505,20 @@ def exec_aln(case) -> Soft:
     ok, aln = s.call("construct", lambda: make_aligned_seqs(dict(rows), moltype="dna", array_align=False))
     if not ok:
         return s
+    from_gff = case.get("load", "api") == "gff"
+    s.cls("load:gff" if from_gff else "load:api")
+    if from_gff:
+        # row features are loaded from GFF text (Alignment.annotate_from_gff), alignment features cannot be written as GFF
+        text = gff_text([(f["seqid"], f) for f in case["features"] if not f["on_alignment"]])
+        ok, _ = s.call("annotate_from_gff", lambda: with_gff_file(text, aln.annotate_from_gff))
+        if not ok:
+            return s
     for f in case["features"]:
         kw = dict(biotype=f["biotype"], name=f["name"], spans=[tuple(x) for x in f["spans"]], strand=f["strand"])
         if f["on_alignment"]:
             ok, _ = s.call("add_feature[alignment]", lambda: aln.add_feature(on_alignment=True, **kw))
+        elif from_gff:
+            continue
         else:
             ok, _ = s.call("add_feature[seq]", lambda: aln.add_feature(seqid=f["seqid"], on_alignment=False, **kw))
         if not ok:
@@ -472,6 +576,144 @@ def exec_aln(case) -> Soft:
     ok, feats = s.call("get_features" + circ, lambda: list(view.get_features(allow_partial=True)))
     if not ok:
         return s
+    rc_circ = "[row-feature-on-rc-alignment]" if any(op[0] == "rc" for op in case["history"]) else ""
+    gap_circ = "[row-all-gaps-in-view]" if any(all(c == "-" for c in r[lo:hi]) for r in rows.values()) else ""
+    # the interval of each row's ungapped sequence that the view retains
+    rowview = {}
+    for nm, r in rows.items():
+        rowview[nm] = (len(r[:lo].replace("-", "")), len(r[:hi].replace("-", "")))
+
+    def row_hits(f, allow_partial):
+        """a row feature matches when its envelope overlaps (lies inside) the part of its sequence retained by the view"""
+        rlo, rhi = rowview[f["seqid"]]
+        if rlo == rhi:
+            return False  # documented in _get_seq_features: no residues of this sequence lie within the view
+        fs, fe = min(x[0] for x in f["spans"]), max(x[1] for x in f["spans"])
+        return (fs < rhi and fe > rlo) if allow_partial else (rlo <= fs and fe <= rhi)
+
+    # ---- filtered alignment-level queries: exact name sets
+    for q in case.get("queries", []):
+        oa = q.get("on_alignment")
+        kw = {k: q[k] for k in ("seqid", "biotype", "name", "on_alignment") if k in q}
+        if case["history"] and has_aln_feature and oa is not False:
+            qc = "[alignment-feature-on-sliced-alignment]"
+        else:
+            qc = rc_circ or gap_circ
+        sig = ("query[partial]" if q["allow_partial"] else "query") + qc
+        ok, res = s.call(sig, lambda: [ft.name for ft in view.get_features(allow_partial=q["allow_partial"], **kw)])
+        if not ok:
+            continue
+        want_q = []
+        ignore = set()
+        for f in case["features"]:
+            if "biotype" in q and f["biotype"] != q["biotype"]:
+                continue
+            if "name" in q and f["name"] != q["name"]:
+                continue
+            if f["on_alignment"]:
+                if oa is False:
+                    continue
+                if oa is None and "seqid" in q:
+                    ignore.add(f["name"])  # undocumented whether a seqid filter excludes alignment features
+                    continue
+                want_q.append(f["name"])  # alignment features are not filtered by position
+            else:
+                if oa is True:
+                    continue
+                if "seqid" in q and f["seqid"] != q["seqid"]:
+                    continue
+                if row_hits(f, q["allow_partial"]):
+                    want_q.append(f["name"])
+        res = sorted(nm for nm in res if nm not in ignore)
+        s.cls("query:" + ("any" if oa is None else "alignment" if oa else "rows") + ("+seqid" if "seqid" in q else ""))
+        s.eq(res, sorted(want_q), sig + "/membership", f"{what0} query {q}")
+
+    # ---- the row sequences of the view, and of the collection made by degapping the view
+    ok_dg, degapped = s.call("degap", view.degap)
+    for nm in rows:
+        rlo, rhi = rowview[nm]
+        if rlo == rhi:
+            continue
+        ungapped = rows[nm].replace("-", "")
+        want_seq = rc(ungapped[rlo:rhi]) if rev else ungapped[rlo:rhi]
+        variants = [("get_seq", "", lambda: view.get_seq(nm))]
+        if ok_dg:
+            variants.append(("degap.get_seq", "[degap-of-view]" if (rlo or rev) else "[after-degap]", lambda: degapped.get_seq(nm)))
+        for label, tag, getter in variants:
+            ok, sq = s.call(label, getter)
+            if not ok:
+                continue
+            ok, txt = s.call(label + "/str", str, sq)
+            if not ok or not s.eq(txt, want_seq, label + "/str", f"{what0} row {nm}"):
+                continue
+            for ap in (True, False):
+                sig = f"{label}/get_features{'[partial]' if ap else ''}{tag}"
+                ok, fts = s.call(sig, lambda: list(sq.get_features(allow_partial=ap)))
+                if not ok:
+                    continue
+                got_r, bad = [], False
+                for ft in fts:
+                    ok2, sl = s.call(sig + "/get_slice", lambda: str(ft.get_slice()))
+                    if ok2:
+                        got_r.append((ft.name, sl))
+                    else:
+                        bad = True
+                if bad:
+                    continue
+                want_r = [
+                    (f["name"], expected_slice(ungapped, 0, f, rlo, rhi))
+                    for f in case["features"]
+                    if not f["on_alignment"] and f["seqid"] == nm and row_hits(f, ap)
+                ]
+                if sorted(x[0] for x in got_r) != sorted(x[0] for x in want_r):
+                    s.fail(sig + "/membership", f"{what0} row {nm}: returned {sorted(got_r)} expected {sorted(want_r)}")
+                elif sorted(got_r) != sorted(want_r):
+                    s.fail(sig + "/residues", f"{what0} row {nm}: returned {sorted(got_r)} expected {sorted(want_r)}")
+                if label == "degap.get_seq":
+                    s.cls("degapped-view")
+
+    # ---- collection-level query on the degapped collection (SequenceCollection.get_features takes no window: only
+    # asserted for the whole forward alignment, where every row feature lies inside)
+    if ok_dg and not case["history"]:
+        sig = "degap.get_features[after-degap]"
+        ok, fts = s.call(sig, lambda: list(degapped.get_features(allow_partial=True)))
+        if ok:
+            got_c, bad = [], False
+            for ft in fts:
+                ok2, sl = s.call(sig + "/get_slice", lambda: str(ft.get_slice()))
+                if ok2:
+                    got_c.append((ft.name, sl))
+                else:
+                    bad = True
+            want_c = [(f["name"], expected_slice(rows[f["seqid"]].replace("-", ""), 0, f, 0, L)) for f in case["features"] if not f["on_alignment"]]
+            if not bad:
+                s.eq(sorted(got_c), sorted(want_c), sig + "/features", f"{what0}")
+
+    # ---- every row feature of the other rows projected onto the target row
+    tgt = case["project_to"]
+    want_p, empty_src = [], False
+    for f in case["features"]:
+        if f["on_alignment"] or f["seqid"] == tgt or not row_hits(f, True):
+            continue
+        kept = [c for c in exp[f["name"]][1] if lo <= c < hi]
+        if not kept:
+            empty_src = True
+        t2 = shown(tgt, kept).replace("-", "")
+        want_p.append((f["name"], rc(t2) if f["strand"] == "-" else t2))
+    pc = "[source-feature-without-residues-in-view]" if empty_src else (rc_circ or gap_circ)
+    ok, pfs = s.call("get_projected_features" + pc, lambda: view.get_projected_features(seqid=tgt, on_alignment=False, allow_partial=True))
+    if ok:
+        got_p, bad = [], False
+        for pf in pfs:
+            ok2, sl = s.call("get_projected_features/get_slice" + pc, lambda: str(pf.get_slice()))
+            if ok2:
+                got_p.append((pf.name, sl.replace("-", "")))
+            else:
+                bad = True
+        if not bad:
+            s.eq(sorted(got_p), sorted(want_p), "get_projected_features/slices" + pc, f"{what0} projected to {tgt}")
+            if want_p:
+                s.cls("projection-all")
     got_names = sorted(ft.name for ft in feats)
     want_names = sorted(nm for nm, (f, cols) in exp.items() if cols and min(cols) < hi and max(cols) + 1 > lo)
     # a row feature is found through its sequence: envelope in sequence coordinates; we only require that
@@ -539,13 +781,13 @@ KNOWN_PREDICATES = {}
 # thorough tier: coverage-guided campaigns (atheris/libFuzzer mutating the bytes Hypothesis draws from)
 FUZZ = {
     "subs": ['sequence', 'alignment', 'strided'],
-    "targets": ['cogent3.core.sequence', 'cogent3.core.alignment', 'cogent3.core.annotation', 'cogent3.core.annotation_db', 'cogent3.core.location'],
+    "targets": ['cogent3.core.sequence', 'cogent3.core.alignment', 'cogent3.core.annotation', 'cogent3.core.annotation_db', 'cogent3.core.location', 'cogent3.parse.gff'],
     "execs_thorough": 40_000, "jobs_thorough": 4, "execs_quick": 1000, "jobs_quick": 2,
 }
 
 META = {
     "technique": "Hypothesis-generated features, view histories and query windows against an index-set model of features and views (sequence and alignment level)",
-    "level_text": "Thousands of generated cases per run place single- and multi-span features of either strand on old- and new-style sequences (with and without an annotation offset) and on gapped alignments, apply slice/rc/copy histories, and compare every feature returned by window queries, its residues and its coordinates with a model that works on plain parent indices; projections through gapped rows are compared column by column.",
+    "level_text": "Thousands of generated cases per run place single- and multi-span features of either strand on old- and new-style sequences (with and without an annotation offset; added through the API or loaded from generated GFF3 text) and on gapped alignments, apply slice/rc/copy/degap histories, and compare every feature returned by window queries, its residues and its coordinates with a model that works on plain parent indices; alignment-level queries filtered by seqid, biotype, name and on_alignment are compared as exact name sets with and without partial matches; the row sequences of a view and of the collection obtained by degapping it are queried against the same model; projections through gapped rows (one feature, and all features of the other rows) are compared column by column.",
     "level_note": "Trusts the index model (about 60 lines). Features added to already sliced views and strided views are outside the domain (see assumptions).",
     "design_ref": "DESIGN.md section 1, C04",
 }
